@@ -88,7 +88,11 @@ class LiquidTag(Tag):
             rules = (
                 (
                     "LIQUID_EXPR",
-                    rf"[ \t]*(?P<name>(\w+|{seq}))[ \t]*(?P<expr>.*?)[ \t\r]*?(\n+|$)",
+                    # The comment marker is tried first, or a marker like `c-` would be
+                    # read as the tag name `c`. A marker that ends in a word character
+                    # must not be followed by one, or `c` would swallow `case`.
+                    rf"[ \t]*(?P<name>{seq}(?:(?<!\w)|(?!\w))|\w+)"
+                    r"[ \t]*(?P<expr>.*?)[ \t\r]*?(\n+|$)",
                 ),
                 ("SKIP", r"[\r\n]+"),
                 (TOKEN_ILLEGAL, r"."),
